@@ -146,6 +146,8 @@ serde = "1"
 arbitrary = "1"
 regex = "1"
 '''
+        if 'schemars08' in c['features']:
+            deps += 'schemars = "0.8"\n'
     else:
         deps = f'''nutype = {{ path = "{r}/nutype", default-features = false, features = [{feats}] }}
 serde = {{ version = "1", default-features = false, features = ["alloc"] }}
